@@ -148,12 +148,13 @@ func (fc *FnCtx) assign(st *State, lhs ast.Expr, v Val) {
 		}
 		v = fc.convertAssign(st, v, sel.Type())
 		fc.bumpCall(st, l.Sel.Name) // `counts <field>`: assignments to a field are counted like calls
-		if r := fc.root(); r == fc && r.ct != nil {
+		if r := fc.root(); r.ct != nil {
+			// also for writes made by contract-less callees executed inline (the clause is evaluated over the root's variables)
 			if len(r.ct.WritePre[l.Sel.Name]) > 0 {
 				fc.hit("writepre " + l.Sel.Name)
 			}
 			for i, cl := range r.ct.WritePre[l.Sel.Name] {
-				env := &SpecEnv{fc: fc, st: st, old: r.entry, scope: map[string]Val{"$value": v}, oldScope: fc.paramsEntry, pkg: fc.ctPkg(), useVars: true}
+				env := &SpecEnv{fc: r, st: st, old: r.entry, scope: map[string]Val{"$value": v}, oldScope: r.paramsEntry, pkg: r.ctPkg(), useVars: true}
 				g := fc.safeSpec(env, cl.E, cl.Text)
 				fc.assertNamed(st, "emit", "write."+l.Sel.Name+"."+clauseName(cl, i), g.T, "whenever field "+l.Sel.Name+" is assigned: "+cl.Text, l.Pos())
 			}
